@@ -127,9 +127,8 @@ def wfField (rec : String) (kv : String × String) : Bool :=
   (!(isPinPath rec path "Type") || ["1", "2", "4", "8", "16"].contains tok) &&
   (seg != "Origins" || elems.all (·.startsWith "mp")) &&
   (rec != "AddParams" ||
-    ((path != "Layout" || ["~", "~trickle", "~balanced"].contains tok) &&
+    ((path != "IPFSAddParams.Layout" || ["~", "~trickle", "~balanced"].contains tok) &&
      (path != "Format" || ["~", "~car", "~unixfs"].contains tok) &&
-     (path != "IPFSAddParams.Layout" || ["~", "~trickle", "~balanced"].contains tok) &&
      (seg != "Chunker" || tok != "~") && (seg != "HashFun" || tok != "~") &&
      (seg != "PinUpdate" || tok == "c-")))
 
